@@ -46,13 +46,14 @@ def run_cases(cases, repo_src, script=False, small_stack=False):
     """cases: list of dicts (m, s, ...) -> list of result dicts (None where the process died: abort / stack overflow)"""
     exe = build_driver(repo_src)
     out = []
+    n_hung = 0; n_dead = 0
     todo = list(cases)
     while todo:
         inp = '\n'.join(json.dumps(c) for c in todo) + '\n'
         args = [exe] + (['--script'] if script else []) + (['--small-stack'] if small_stack else [])
         hung = False
         try:
-            r = subprocess.run(args, input=inp, capture_output=True, text=True, timeout=(300 if script else 90), preexec_fn=_limit_memory)
+            r = subprocess.run(args, input=inp, capture_output=True, text=True, timeout=(40 if script else 40), preexec_fn=_limit_memory)
             so = r.stdout
         except subprocess.TimeoutExpired as e:
             # the case after the last answer never returned (deadlock / non-termination): reported like a process death
@@ -71,6 +72,11 @@ def run_cases(cases, repo_src, script=False, small_stack=False):
             if script:
                 out += [None] * (len(todo) - len(res) - 1)
                 break
+            n_dead += 1
+            if hung:
+                n_hung += 1
+                if n_hung >= 2: break        # two inputs that never return are evidence enough; the remaining cases of this batch are not run (40 s each otherwise)
+            if n_dead >= 6: break            # likewise after six process deaths (a change that exhausts memory dies slowly on every such input)
             todo = todo[len(res) + 1:]
         else:
             todo = []
